@@ -116,7 +116,7 @@ def foVal (F : Cx) (ρ' : Env) (key val : Expr) (group : Bool) (st : ForSt) : Fo
           let st := { st with diags := st.diags ++ vd }
           if group then { st with kvs := groupInsert k v st.kvs }
           else if (lookupKey k st.kvs).isSome then
-            { st with diags := st.diags ++ [⟨"Duplicate object key", [.str kf k]⟩] }
+            { st with diags := st.diags ++ [⟨"Duplicate object key", if st.marks.m then [] else [.str kf k]⟩] }
           else { st with kvs := groupInsert k v st.kvs }
         | _ => { st with known := false }
 
